@@ -75,7 +75,9 @@ func successSchemaOK(path string, body []byte) (bool, string) {
 }
 
 func hostileBodies(rng *gen.RNG) []string {
-	valid := `{"secret":"GEZDGNBVGY3TQOJQGEZDGNBVGY3TQOJQ","code":"123456","counter":5,"timestamp":1700000000,"digits":"6","period":30,"skew":1,"algorithm":"SHA1","raw_suite":"OCRA-1:HOTP-SHA1-6:QN08","input":{"challenge_hex":"3132333435363738"},"type":"totp","issuer":"i","account_name":"a"}`
+	// every optional field carries a NON-default value, so that anything a rejected request leaves behind in
+	// server-side state is visible in a following request that omits the field
+	valid := `{"secret":"GEZDGNBVGY3TQOJQGEZDGNBVGY3TQOJQ","code":"123456","counter":7,"timestamp":1700000000,"digits":"8","period":45,"skew":3,"algorithm":"SHA512","raw_suite":"OCRA-1:HOTP-SHA1-6:QN08","input":{"challenge_hex":"3132333435363738"},"type":"totp","issuer":"i","account_name":"a"}`
 	out := []string{"", "{", "}", "null", "[]", `"str"`, "123", "{}", "{\"secret\":", valid[:len(valid)/2], valid + valid, valid + "garbage", "\x00\x01\x02\xff\xfe", "<xml/>", "secret=abc&code=1",
 		`{"secret":"A","secret":"B","secret":1}`, strings.Repeat("[", 20000), strings.Repeat(`{"a":`, 12000), `{"secret":"` + strings.Repeat("A", 1<<20-64) + `"}`,
 		strings.Repeat(" ", 1<<20+10), `{"secret":"` + strings.Repeat("A", 1<<20+100) + `"}`, "\xef\xbb\xbf" + valid, `{"SECRET":"GEZDGNBVGY3TQOJQ","Code":"1"}`}
@@ -337,11 +339,88 @@ func c19RawTCP(c *Ctx, srv *server) {
 	}
 }
 
+// c19RejectedThenMinimal: for every POST endpoint and every field, a request that is rejected because that one
+// field has the wrong JSON type (all other fields well-typed, with non-default values) is immediately followed by
+// well-formed minimal requests that omit every optional field; those must be answered from their own fields only.
+func c19RejectedThenMinimal(c *Ctx, srv *server) {
+	rng := c.RNG.Fork(191)
+	key := []byte("12345678901234567890")
+	sec := ref.Base32Encode(key)
+	full := map[string]string{
+		"secret": `"` + sec + `"`, "code": `"123456"`, "counter": "7", "timestamp": "1700000000", "digits": `"8"`, "period": "45", "skew": "3", "algorithm": `"SHA512"`,
+		"raw_suite": `"OCRA-1:HOTP-SHA512-8:C-QH10"`, "input": `{"counter_hex":"0000000000000009","challenge_hex":"31323334353637383930"}`,
+		"suite": `{"hash_function":"SHA256","code_digits":9,"challenge_format":2,"include_counter":true,"include_challenge":true}`,
+		"type":  `"hotp"`, "issuer": `"Poison Issuer"`, "account_name": `"poison@example.com"`,
+	}
+	fieldsOf := map[string][]string{
+		"totp/generate": {"secret", "timestamp", "digits", "period", "algorithm"},
+		"totp/validate": {"secret", "code", "timestamp", "digits", "period", "skew", "algorithm"},
+		"hotp/generate": {"secret", "counter", "digits", "algorithm"},
+		"hotp/validate": {"secret", "code", "counter", "digits", "skew", "algorithm"},
+		"otp/url":       {"type", "secret", "issuer", "account_name", "period", "digits", "algorithm"},
+		"ocra/generate": {"secret", "raw_suite", "input"},
+		"ocra/validate": {"secret", "code", "raw_suite", "input"},
+	}
+	wrong := []string{"1", `"x"`, "true", "{}", "[]", "1.5", "-1"}
+	minimal := func(ep string) []restCase {
+		switch ep {
+		case "totp/generate":
+			return []restCase{{EP: ep, Method: "POST", F: map[string]any{"secret": sec, "timestamp": uint64(1700000123)}, KeyHex: hexs(key)}}
+		case "hotp/generate":
+			return []restCase{{EP: ep, Method: "POST", F: map[string]any{"secret": sec}, KeyHex: hexs(key)}}
+		case "hotp/validate":
+			return []restCase{{EP: ep, Method: "POST", F: map[string]any{"secret": sec, "code": ref.HOTP(key, 0, 6, 0)}, KeyHex: hexs(key), Note: "minimal request, own counter"},
+				{EP: ep, Method: "POST", F: map[string]any{"secret": sec, "code": ref.HOTP(key, 1, 6, 0)}, KeyHex: hexs(key), Note: "minimal request, code of counter +1 with no window"},
+				{EP: ep, Method: "POST", F: map[string]any{"secret": sec, "code": ref.HOTP(key, 7, 6, 0)}, KeyHex: hexs(key), Note: "minimal request, code of counter 7"}}
+		case "totp/validate":
+			return []restCase{{EP: ep, Method: "POST", F: map[string]any{"secret": sec, "timestamp": uint64(1700000123), "code": ref.TOTP(key, 1700000123, 30, 6, 0)}, KeyHex: hexs(key), Note: "minimal request, own step"},
+				{EP: ep, Method: "POST", F: map[string]any{"secret": sec, "timestamp": uint64(1700000123), "code": ref.TOTP(key, 1700000123+30, 30, 6, 0)}, KeyHex: hexs(key), Note: "minimal request, code of step +1 with no skew"}}
+		case "otp/url":
+			return []restCase{{EP: ep, Method: "POST", F: map[string]any{"secret": sec, "type": "totp", "issuer": "I", "account_name": "a"}}}
+		case "ocra/generate":
+			return []restCase{{EP: ep, Method: "POST", F: map[string]any{"secret": sec, "raw_suite": "OCRA-1:HOTP-SHA1-6:QN08", "input": map[string]any{"challenge_hex": "3132333435363738"}}, KeyHex: hexs(key)}}
+		case "ocra/validate":
+			m, _ := ref.ParseSuiteName("OCRA-1:HOTP-SHA1-6:QN08")
+			return []restCase{{EP: ep, Method: "POST", F: map[string]any{"secret": sec, "raw_suite": "OCRA-1:HOTP-SHA1-6:QN08", "code": ref.OCRA(key, m, ref.Input{Challenge: []byte("12345678")}), "input": map[string]any{"challenge_hex": "3132333435363738"}}, KeyHex: hexs(key), Note: "the generated code"}}
+		}
+		return nil
+	}
+	for rep := 0; rep < c.N(3, 12); rep++ {
+		for ep, fs := range fieldsOf {
+			for _, bad := range fs {
+				var parts []string
+				for _, f := range fs {
+					v := full[f]
+					if f == bad {
+						v = gen.Pick(rng, wrong)
+						if v == full[f] || (strings.HasPrefix(full[f], `"`) && strings.HasPrefix(v, `"`)) {
+							v = "[1]"
+						}
+					}
+					parts = append(parts, `"`+f+`":`+v)
+				}
+				if ep == "ocra/generate" || ep == "ocra/validate" {
+					if rng.Bool() {
+						parts = append(parts, `"suite":`+full["suite"])
+					}
+				}
+				body := "{" + strings.Join(parts, ",") + "}"
+				judgeHostile(c, srv, hostileReq{Method: "POST", Path: "/" + ep, Body: hs(body), Note: "rejected-then-minimal: wrong type for " + bad}, false)
+				for _, m := range minimal(ep) {
+					judgeREST(c, srv, m)
+					c.R.Count("minimal_requests_after_a_rejected_one", 1)
+				}
+			}
+		}
+	}
+}
+
 func c19Soak(c *Ctx, srv *server, seq []hostileReq, probe func()) {
 	pad := strings.Repeat("x", 1<<20-4096)
 	type cls struct {
 		path   string
 		status int
+		msg    string // the error message (or the first bytes of a non-JSON body): distinguishes error paths with the same status
 	}
 	seen := map[cls]bool{}
 	var reps []hostileReq
@@ -357,7 +436,14 @@ func c19Soak(c *Ctx, srv *server, seq []hostileReq, probe func()) {
 		if res.Err != nil || res.Status < 400 {
 			continue
 		}
-		key := cls{pathClass(k.Path), res.Status}
+		msg := string(res.Body)
+		if m, err := decodeJSON(res.Body); err == nil {
+			msg = fStr(m, "message")
+		}
+		if len(msg) > 40 {
+			msg = msg[:40]
+		}
+		key := cls{pathClass(k.Path), res.Status, msg}
 		if seen[key] {
 			continue
 		}
@@ -367,6 +453,9 @@ func c19Soak(c *Ctx, srv *server, seq []hostileReq, probe func()) {
 		reps = append(reps, hostileReq{Method: "POST", Path: k.Path, Body: hs(big), Note: fmt.Sprintf("soak: error path %s -> %d with a ~1 MiB body", key.path, key.status)})
 	}
 	n := c.N(90, 300)
+	if len(reps) > 40 {
+		reps = reps[:40]
+	}
 	for _, k := range reps {
 		for i := 0; i < n; i++ {
 			judgeHostile(c, srv, k, i == 0)
@@ -432,6 +521,7 @@ func runC19(c *Ctx) {
 	}
 	// soak: every failing request class repeated many times with bodies close to the 1 MiB limit (resource
 	// accounting that leaks on an error path exhausts only after dozens of large requests), then probes
+	c19RejectedThenMinimal(c, srv)
 	c19Soak(c, srv, seq, probe)
 	srv = c19SkewProbes(c, srv)
 	if srv == nil {
